@@ -169,7 +169,13 @@ PathShape(id) ==
                                 LL("tl", "tint8"),
                                 Choice("speed", << Leaf("speed", "tempty"), Case("duplex", << Leaf("duplex", "tstring") >>) >>) >>),
             Choice("x", << Case("x", << Leaf("x", "tint8") >>), Case("y", << Cont("y", << Leaf("y", "tempty") >>) >>) >>) >>
-NPathShapes == 13
+    [] id = 14 ->  \* node names are input: digit runs whose natural and byte order differ, names that are prefixes
+                   \* of each other, names differing only in case or in - _ . (child lookup is by exact name)
+         << Cont("x", << Leaf("x2", "int8"), Leaf("x10", "string"), Leaf("x9", "empty"), LL("x100", "int8"),
+                         Leaf("ab", "string"), Cont("abc", << Leaf("v", "int8"), Leaf("V", "string") >>),
+                         List("a-2", "a_2", << Leaf("a_2", "int8"), Leaf("a.2", "string"), Leaf("a-10", "empty") >>) >>),
+            Leaf("X", "string") >>
+NPathShapes == 14
 
 \* tokens tried on a shape: every name of the schema (choice and case names included),
 \* a valid integer (also a valid string), a token no type but string accepts, an unknown name,
